@@ -1,13 +1,15 @@
 #!/bin/sh
-# usage: selftest/try_seeded.sh <patch> <prop> [<prop> ...]   -- applies the patch to /repo, runs the quick checks, undoes it
+# usage: selftest/try_seeded.sh <patch> <prop> [<prop> ...]
+# applies the patch to a scratch git worktree of /repo HEAD (never to /repo itself, so that checks
+# running concurrently against /repo are not disturbed), runs the quick checks against it, removes it
 patch="$1"; shift
-cd /repo || exit 2
-git diff --quiet || { echo "/repo has uncommitted changes"; exit 2; }
-git apply --whitespace=nowarn "$patch" || { echo "patch does not apply"; exit 2; }
+wt=$(mktemp -d /tmp/pi2_try_XXXXXX); rmdir "$wt"
+git -C /repo worktree add --detach -f "$wt" HEAD >/dev/null 2>&1 || exit 2
+git -C "$wt" apply --whitespace=nowarn "$patch" || { echo "patch does not apply"; git -C /repo worktree remove --force "$wt"; exit 2; }
 cd /verif
 for p in "$@"; do
-  ./check "$p" quick --no-evidence > /tmp/try_seeded_$p.log 2>&1
+  PI2_REPO="$wt" ./check "$p" quick --no-evidence > /tmp/try_seeded_$p.log 2>&1
   echo "$p exit=$? $(grep -c '^VIOLATION' /tmp/try_seeded_$p.log) violation(s): $(grep 'signature=' /tmp/try_seeded_$p.log | sed 's/.*signature=\([^ ]*\).*/\1/' | sort -u | head -4 | tr '\n' ' ')"
   for r in $(grep '^VIOLATION' /tmp/try_seeded_$p.log | sed 's/.*replay=//'); do rm -f "$r"; done
 done
-git -C /repo checkout -- .
+git -C /repo worktree remove --force "$wt"; git -C /repo worktree prune
